@@ -159,6 +159,13 @@ def apply(g, op, bad=None):
         t.start(g.time())
     elif k == "cancel":
         g.tg.cancel(t, g.time())
+    elif k == "preempt":
+        # RUNNING -> PREEMPTED (not produced by `enabled`: the pause is a one-step
+        # extension of every BFS state, see bfs_job)
+        t.preempt(g.time())
+    elif k == "evict":
+        # RUNNING -> EVICTED: the worker gives the task up with work left
+        t.finish(g.time())
     elif k == "fin":
         rem = t.remaining_time
         t.step(g.time(), rem)
@@ -265,6 +272,12 @@ def query_all(g, bad, stats):
                                 bad("offer.starved", f"{key}: RELEASED {n} (release "
                                                      f"{t.release_time.time}) missing "
                                                      f"at {g.now}")
+                        for n, t in g.t.items():
+                            if t.state in (TS.PREEMPTED, TS.EVICTED) and n not in names:
+                                bad("offer.paused_starved",
+                                    f"{key}: {t.state.name} {n} (released at "
+                                    f"{t.release_time.time}, work left) missing at "
+                                    f"{g.now}")
                         if la == 0 and not rtg and pol == BP.ALL and not retract \
                                 and g.greedy_only:
                             for n in names:
@@ -305,6 +318,29 @@ def query_all(g, bad, stats):
         stats["states_offering_virtual"] += 1
 
 
+def paused_extension(gname, hist, g, mkbad, stats):
+    """One step beyond every BFS state: each RUNNING task is preempted, or evicted with
+    work left, and the frontier of that state is judged as well (a paused task is a
+    released task whose time has come: it must be offered under every option).  The
+    paused states are not searched further."""
+    from workload import TaskState as TS
+
+    for n in sorted(g.t):
+        if g.t[n].state != TS.RUNNING:
+            continue
+        for kind in ("preempt", "evict"):
+            h3 = tuple(hist) + ((kind, n),)
+            try:
+                g3 = build(gname, h3)
+            except Exception:  # noqa: B902
+                stats["ops_refused_by_object"] += 1
+                continue
+            if g3.t[n].state not in (TS.PREEMPTED, TS.EVICTED):
+                continue  # nothing left to run: the object completed the task instead
+            stats["paused_states"] = stats.get("paused_states", 0) + 1
+            query_all(g3, mkbad(h3), stats)
+
+
 def bfs_job(item, tier):
     from .. import bootstrap  # noqa: F401
 
@@ -313,7 +349,7 @@ def bfs_job(item, tier):
     prefix = tuple(tuple(o) for o in prefix)
     out = []
     stats = {"queries": 0, "states_with_offers": 0, "states_offering_virtual": 0,
-             "state_cap_hit": 0, "ops_refused_by_object": 0}
+             "state_cap_hit": 0, "ops_refused_by_object": 0, "paused_states": 0}
 
     def mkbad(hist):
         def bad(rule, msg):
@@ -326,6 +362,7 @@ def bfs_job(item, tier):
     g = build(gname, prefix)
     seen = {canon(g)}
     query_all(g, mkbad(prefix), stats)
+    paused_extension(gname, prefix, g, mkbad, stats)
     frontier = [prefix]
     transitions = 0
     for d in range(len(prefix), depth):
@@ -356,6 +393,7 @@ def bfs_job(item, tier):
                 seen.add(c)
                 nxt.append(h2)
                 query_all(g2, bad, stats)
+                paused_extension(gname, h2, g2, mkbad, stats)
         frontier = nxt
         if not frontier:
             break
@@ -431,7 +469,10 @@ def main(tier, seed):
              "from the initial state and from the state 'all sources running', time "
              "0..4+runtimes; in each "
              "state 5 branch policies (RANDOM under both answers) x retract x "
-             "release_taskgraphs x lookahead {0,1,3,50} = 96 frontier queries judged",
+             "release_taskgraphs x lookahead {0,1,3,50} = 96 frontier queries judged; "
+             "every state with a RUNNING task is also extended by one step to the "
+             "states in which that task is PREEMPTED or EVICTED with work left, and "
+             "judged there",
         assumptions=["preemption offers are judged in E1 runs only (they need a live "
                      "cluster)", "states de-duplicated on (time, per-task state/times/"
                      "probability) within a work item; depth %d from the initial state "
@@ -442,7 +483,8 @@ def main(tier, seed):
                      "the run-level clauses (no premature offer to greedy policies, "
                      "release on completion) are also enforced by the E1 monitor in "
                      "every C02/C05/C06 world"],
-        required_stats=("queries", "states_with_offers", "states_offering_virtual"),
+        required_stats=("queries", "states_with_offers", "states_offering_virtual",
+                        "paused_states"),
         chunk=1, budget_s=200 if tier == "quick" else 900, confirm_job=confirm_job)
     e1 = _e1props.main("C18", tier, seed, finish=False)
     combine_and_finish("C18", tier, seed, [("E2-frontier", e2), ("E1-runs", e1)])
